@@ -277,10 +277,65 @@ static void raw_codec(size_t rounds) {
 	}
 }
 
+/* ------------------------------------------------------------------ decoding when memory runs out
+ * Every allocation made inside one KSI_PublicationData_fromBase32 call fails once (malloc / calloc are wrapped at link time), on a context made for
+ * that one call (so nothing is waiting in its recycle pool) and on a context that has released hashes before. The call then either gives the data of
+ * the string or refuses it without handing out an object; the same string decodes and encodes back afterwards on that same context. */
+void *__real_malloc(size_t); void *__real_calloc(size_t, size_t);
+static int fp_on; static long fp_calls, fp_fail_at;
+void *__wrap_malloc(size_t n) { if (fp_on) { fp_calls++; if (fp_calls == fp_fail_at) return NULL; } return __real_malloc(n); }
+void *__wrap_calloc(size_t a, size_t b) { if (fp_on) { fp_calls++; if (fp_calls == fp_fail_at) return NULL; } return __real_calloc(a, b); }
+
+static void oom_one(uint64_t t, int ai, int pool, int prefill) {
+	unsigned char dig[64], bin[128]; char ref[512]; size_t bl, i, dl = KNOWN_LEN[ai]; int alg = KNOWN[ai]; long total, k;
+	for (i = 0; i < dl; i++) dig[i] = (unsigned char)vh_rand();
+	bl = ref_pub_binary(t, alg, dig, dl, bin);
+	ref_encode(bin, bl, 6, ref);
+	for (k = 0, total = 1; k <= total; k++) {
+		KSI_CTX *c = NULL; KSI_PublicationData *pd = NULL; int res; char *back = NULL;
+		if (KSI_CTX_new(&c) != KSI_OK) return;
+		if (pool >= 0) KSI_CTX_setOption(c, KSI_OPT_DATAHASH_CACHE_SIZE, (void *)(size_t)pool);
+		if (prefill) { KSI_DataHash *h = NULL; if (KSI_DataHash_fromDigest(c, 1, dig, 32, &h) == KSI_OK) KSI_DataHash_free(h); }
+		vh_case("pubstr t=%llu alg=%d ref=%s allocation %ld of the decoding call fails (recycle pool option %d, %s)", (unsigned long long)t, alg, ref, k, pool, prefill ? "a hash was released before" : "fresh context");
+		fp_calls = 0; fp_fail_at = k; fp_on = 1;
+		res = KSI_PublicationData_fromBase32(c, ref, &pd);
+		fp_on = 0;
+		if (k == 0) { total = fp_calls; if (res != KSI_OK) { vh_count("oom_string_not_decodable", 1); KSI_CTX_free(c); return; } vh_count("oom_decoding_calls_measured", 1); vh_count("oom_allocations_in_decoding_calls", total); }
+		vh_eval++;
+		if (res == KSI_OK) {
+			KSI_Integer *ti = NULL; KSI_DataHash *h = NULL; const unsigned char *ip = NULL; size_t il = 0;
+			if (pd == NULL) vh_viol("fromBase32:allocation-failure:null-on-ok", ref, "KSI_OK without object, allocation %ld of %ld failed", k, total);
+			else {
+				KSI_PublicationData_getTime(pd, &ti); KSI_PublicationData_getImprint(pd, &h);
+				if (h) KSI_DataHash_getImprint(h, &ip, &il);
+				if (!ti || KSI_Integer_getUInt64(ti) != t || il != dl + 1 || memcmp(ip, bin + 8, il)) vh_viol("fromBase32:allocation-failure:other-data", ref, "allocation %ld of %ld failed, KSI_OK with data that is not the string's", k, total);
+				else vh_count(k ? "oom_decoded_despite_failure" : "oom_baseline_decoded", 1);
+			}
+		} else {
+			if (pd != NULL) vh_viol("fromBase32:allocation-failure:object-on-error", ref, "object returned together with error %d", res);
+			else vh_count("oom_refused_cleanly", 1);
+		}
+		KSI_PublicationData_free(pd); pd = NULL;
+		/* afterwards, same context */
+		res = KSI_PublicationData_fromBase32(c, ref, &pd);
+		if (res != KSI_OK || !pd) vh_viol("fromBase32:after-allocation-failure:refused", ref, "the string is refused (res=%d) on a context on which allocation %ld of %ld failed before", res, k, total);
+		else if (KSI_PublicationData_toBase32(pd, &back) != KSI_OK || !back || strncmp(back, ref, strlen(ref))) vh_viol("fromBase32:after-allocation-failure:other-data", ref, "decoding and encoding after a failed allocation gives %s", back ? back : "(nothing)");
+		else vh_count("oom_decoded_again_afterwards", 1);
+		KSI_free(back); KSI_PublicationData_free(pd);
+		KSI_CTX_free(c);
+	}
+}
+
+static void oom_cases(void) {
+	static const uint64_t T[] = {5, 255, 256, 1400000000ull, 0x8000000000000000ull}; size_t a, i;
+	for (a = 0; a < NKNOWN; a++) for (i = 0; i < sizeof T / sizeof *T; i++) { oom_one(T[i], (int)a, -1, 0); oom_one(T[i], (int)a, 0, 0); oom_one(T[i], (int)a, -1, 1); oom_one(T[i], (int)a, 1, 1); }
+}
+
 int main(int argc, char **argv) {
 	uint64_t seed = argc > 1 ? strtoull(argv[1], NULL, 10) : 1; size_t n = argc > 2 ? strtoul(argv[2], NULL, 10) : 50, i;
 	static const uint64_t T[] = {0, 1, 0x7fffffffull, 0x80000000ull, 0xffffffffull, 0x100000000ull, 0x7fffffffffffffffull, 0x8000000000000000ull, 0xffffffffffffffffull, 1400000000ull};
 	vh_seed(seed);
+	if (argc > 3 && !strcmp(argv[3], "oom")) { oom_cases(); vh_finish(getenv("VH_FPFILE")); return 0; }
 	if (KSI_CTX_new(&ctx) != KSI_OK) return 3;
 	if (argc > 3 && strcmp(argv[3], "default")) { if (KSI_CTX_setOption(ctx, KSI_OPT_DATAHASH_CACHE_SIZE, (void *)(size_t)strtoul(argv[3], NULL, 10)) != KSI_OK) return 3; vh_count("runs_with_nondefault_recycle_pool", 1); }
 	for (i = 0; i < n; i++) {
